@@ -28,6 +28,8 @@ def sec_to_public_pair(
             isok = isok or (sec0 in [b"\6", b"\7"])
         if isok:
             y = from_bytes_32(sec[1 + byte_count : 1 + 2 * byte_count])
+            if generator is not None and (x >= generator.p() or y >= generator.p()):
+                raise EncodingError("coordinate out of range in sec encoding")
             # a hybrid prefix (6 or 7) states the parity of y
             if sec0 == b"\4" or (y & 1) == (sec[0] & 1):
                 return (x, y)
